@@ -12,13 +12,13 @@ TInit == CInit /\ nh = 0 /\ expectSub = FALSE /\ timeout = 0 /\ LInit
 K == UNCHANGED <<nh, expectSub, timeout>>
 TReset == /\ Is("reset") /\ nh' = Ev.nh /\ expectSub' = Ev.expectsubclose /\ timeout' = Ev.timeout
           /\ msg' = << >> /\ st' = << >> /\ closing' = FALSE /\ okClosed' = FALSE /\ timedOut' = FALSE
-          /\ pend' = {} /\ subClosed' = 0 /\ pubClosed' = 0 /\ runRet' = FALSE /\ tcall' = << >> /\ Adv
+          /\ pend' = {} /\ subClosed' = 0 /\ pubClosed' = 0 /\ runRet' = FALSE /\ tcall' = << >> /\ lastRet' = 0 /\ Adv
 TEmit   == Is("emit") /\ Emit(Ev.m) /\ K /\ Adv
 THStart == Is("hstart") /\ HStart(Ev.m) /\ K /\ Adv
 THEnd   == Is("hend") /\ HEnd(Ev.m) /\ K /\ Adv
 TCloseC == Is("closecall") /\ CloseCall(Ev.i, Ev.t) /\ K /\ Adv
 TCloseR == /\ Is("closeret")
-           /\ IF Ev.ok THEN CloseRetNil(Ev.i, Ev.states) ELSE CloseRetErr(Ev.i, Ev.t, timeout)
+           /\ IF Ev.ok THEN CloseRetNil(Ev.i, Ev.states, Ev.t, timeout) ELSE CloseRetErr(Ev.i, Ev.t, timeout)
            /\ K /\ Adv
 TRunRet == Is("runret") /\ RunRet(Ev.states, Ev.t, timeout) /\ K /\ Adv
 TSubCl  == Is("subclose") /\ SubClose /\ K /\ Adv
